@@ -49,7 +49,7 @@ import (
 
 const httpPart = "http"
 
-var httpSubs = []string{"http-requests", "sdpfrag", "precondition-headers", "rtcp-report-timing"}
+var httpSubs = []string{"http-requests", "sdpfrag", "precondition-headers", "rtcp-report-timing", "cache-resize"}
 
 func runHTTP(res *core.Result) {
 	if isCoordinator() {
@@ -698,6 +698,9 @@ func runHTTPShard(res *core.Result) {
 	}
 	if core.Want("rtcp-report-timing") && o.Shard == 1%o.Shards {
 		runReportTiming(res)
+	}
+	if core.Want("cache-resize") && o.Shard == 2%o.Shards {
+		runCacheResize(res)
 	}
 }
 
